@@ -486,6 +486,9 @@ def run(ctx, pid, py, modules, truth_floor=1):
     memo(ctx, pid + ".MEMO", py, modules)
     copyout(ctx, pid + ".COPYOUT", py, modules)
     unused(ctx, pid + ".PARAMS", py, modules, ctx.cx if pid in CX_PROPS else None)
+    if pid in CX_PROPS or pid in ("C07", "C16"):
+        from . import cxacc
+        cxacc.rule(ctx, pid + ".RUNSUM", ctx.cx)
     from . import argorder
     argorder.rule(ctx, pid + ".ARGS", py_modules=modules, cx=pid in CX_PROPS)
     nn = names(ctx, pid + ".NAMES", py, modules)
